@@ -112,7 +112,7 @@ fn name_id(x: &mut Xot, n: &crate::model::Nm) -> xot::NameId {
 
 /// Build the document stepwise under a seeded schedule. Returns the document
 /// node and the written-out schedule.
-fn build_stepwise(x: &mut Xot, d: &ADoc, rng: &mut Rng, cons_off: bool, stats: &mut Stats) -> Result<(Node, Vec<String>), String> {
+fn build_stepwise(x: &mut Xot, d: &ADoc, rng: &mut Rng, cons_off: bool, bystander: Option<Node>, stats: &mut Stats) -> Result<(Node, Vec<String>), String> {
     let f = flatten(d);
     let n = f.nodes.len();
     let mut handle: Vec<Option<Node>> = vec![None; n];
@@ -222,6 +222,38 @@ fn build_stepwise(x: &mut Xot, d: &ADoc, rng: &mut Rng, cons_off: bool, stats: &
                     }
                     _ => {}
                 }
+            }
+        }
+        // other clients use the same store in between: calls on trees that have nothing to do with
+        // the one under construction must not change how it comes out
+        if rng.pct(6) {
+            if let Some(other) = bystander {
+                let nodes: Vec<Node> = x.descendants(other).take(64).collect();
+                let n = *rng.pick(&nodes);
+                match rng.below(4) {
+                    0 => {
+                        let c = x.clone_node(n);
+                        log.push(format!("(bystander: clone_node of a {:?})", x.value_type(n)));
+                        let _ = c;
+                    }
+                    1 => {
+                        let _ = x.to_string(other);
+                        log.push("(bystander: to_string)".into());
+                    }
+                    2 => {
+                        let c = x.clone_with_prefixes(n);
+                        let _ = c;
+                        log.push(format!("(bystander: clone_with_prefixes of a {:?})", x.value_type(n)));
+                    }
+                    _ => {
+                        let attrs: Vec<Node> = x.attribute_nodes(n).collect();
+                        if let Some(a) = attrs.first() {
+                            let _ = x.clone_node(*a);
+                            log.push("(bystander: clone_node of an attribute node)".into());
+                        }
+                    }
+                }
+                stats.inc("probe/c20_bystander_call");
             }
         }
         let pi = *rng.pick(&ready);
@@ -552,7 +584,7 @@ fn run_inner(r: &C20Replay, stats: &mut Stats, sample: Option<&mut Vec<String>>)
     let b = fx_doc(d, &mut split).xotify(&mut x);
     // (c) stepwise, seeded order
     let mut rng = Rng::new(r.order_seed);
-    let (c, log) = match build_stepwise(&mut x, d, &mut rng, r.cons_off, stats) {
+    let (c, log) = match build_stepwise(&mut x, d, &mut rng, r.cons_off, Some(a), stats) {
         Ok(v) => v,
         Err(e) => {
             if e.starts_with("harness") {
